@@ -17,9 +17,12 @@
 (***************************************************************************)
 EXTENDS Naturals, Sequences, FiniteSets, TLC, Json
 
-\* files: "M" main (directory "d0"), "A", "B"; "X" never exists
-Files == {"M", "A", "B"}
+\* files: "M" main (directory "d0"), "A", "B" and "A2" - a second, different
+\* file that is also NAMED "A" and lives in another directory (or nowhere);
+\* the leaf name "X" never exists
+Files == {"M", "A", "B", "A2"}
 Dirs == {"d0", "d1", "d2"}
+Leaf(f) == IF f = "A2" THEN "A" ELSE f
 
 VARIABLES
     dirOf,      \* directory of A and B
@@ -38,13 +41,16 @@ VARIABLES
 
 fvars == <<dirOf, idirs, incs, mains, phase, dirs, cache, reads, stack, todo, errors, res>>
 
-Exists(d, leaf) == leaf \in Files /\ (IF leaf = "M" THEN d = "d0" ELSE dirOf[leaf] = d)
 DirOfFile(f) == IF f = "M" THEN "d0" ELSE dirOf[f]
+FileIn(d, leaf) == {f \in Files : Leaf(f) = leaf /\ DirOfFile(f) = d}
+Exists(d, leaf) == FileIn(d, leaf) # {}
 
-\* declarative resolution
+\* declarative resolution: the file of that name in the first directory that has one
 FirstExisting(ds, leaf) ==
     IF \E p \in 1..Len(ds) : Exists(ds[p], leaf)
-    THEN leaf ELSE "?"
+    THEN LET p == CHOOSE p \in 1..Len(ds) : Exists(ds[p], leaf) /\ \A q \in 1..(p - 1) : ~Exists(ds[q], leaf)
+         IN CHOOSE f \in FileIn(ds[p], leaf) : TRUE
+    ELSE "?"
 Resolve(g, leaf) == FirstExisting(<<DirOfFile(g)>> \o idirs, leaf)
 
 IncChoicesM == {<<"A">>, <<"B">>, <<"A", "B">>, <<"B", "A">>, <<"A", "A">>, <<"X">>, <<"A", "X">>}
@@ -52,9 +58,10 @@ IncChoicesB == {<<>>, <<"A">>, <<"M">>, <<"B">>}
 IncChoicesA == {<<>>, <<"B">>}
 
 FInit ==
-    /\ dirOf \in [{"A", "B"} -> Dirs]
+    /\ dirOf \in {d \in [{"A", "B", "A2"} -> Dirs \cup {"none"}] :
+                    d["A"] # "none" /\ d["B"] # "none" /\ d["A2"] # d["A"]}
     /\ idirs \in {<<>>, <<"d1">>, <<"d1", "d2">>, <<"d2", "d1">>}
-    /\ incs \in {[f \in Files |-> IF f = "M" THEN m ELSE IF f = "B" THEN b ELSE a] :
+    /\ incs \in {[f \in Files |-> IF f = "M" THEN m ELSE IF f = "B" THEN b ELSE IF f = "A" THEN a ELSE <<>>] :
                     m \in IncChoicesM, b \in IncChoicesB, a \in IncChoicesA}
     /\ mains \in {<<"M">>, <<"M", "B", "A">>, <<"A", "B", "M">>, <<"B", "A", "M">>}
     /\ phase = "run"
@@ -73,7 +80,7 @@ Top == Head(stack)
 StartMain ==
     /\ phase = "run" /\ stack = <<>> /\ todo # <<>>
     /\ LET f == Head(todo) IN
-         IF \E d \in Dirs : Exists(d, f) /\ (f = "M" \/ TRUE)
+         IF DirOfFile(f) \in Dirs
          THEN /\ dirs' = <<DirOfFile(f)>> \o dirs
               /\ IF cache[f] = "done"
                  THEN /\ stack' = << Frame(f, Len(incs[f]) + 1, "main") >>      \* cached: nothing read again
